@@ -6,6 +6,7 @@ import (
 	"fmt"
 	"math"
 	"os"
+	"path/filepath"
 	"sort"
 	"strconv"
 	"strings"
@@ -72,11 +73,15 @@ func strictlyAscendingPositive(dates []int) bool {
 	return len(dates) > 0
 }
 
+// phases every run set contains explicitly: 0 and the neighbours of the default 80 and of the period 360
+var boundaryPhases = []int{0, 1, 79, 80, 81, 359, 360, 361, -1, -360, 720}
+
 func c20(args []string) {
 	fs := flag.NewFlagSet("c20", flag.ExitOnError)
 	seed := fs.Uint64("seed", 1, "seed")
 	nser := fs.Int("series", 150, "synthetic series")
 	nq := fs.Int("queries", 30, "queries per series")
+	ninit := fs.Int("init", 90, "hermes.Init cases")
 	work := fs.String("work", "", "scratch copy of the examples tree (traced runs)")
 	linesFile := fs.String("lines", "", "file with batch lines (traced runs)")
 	fs.Parse(args)
@@ -193,6 +198,62 @@ func c20(args []string) {
 		emit(jobj{"k": "gwseries", "tag": tag, "dates": dates, "vals": hxs(vals), "q": qs, "level": levels, "err": errs})
 	}
 
+	// ---- hermes.Init (init.go:10-15): the level before the first day — sinusoid of TAG = ITAG-2 resp. the series at BEGINN-2
+	for c := 0; c < *ninit; c++ {
+		g := new(hermes.GlobalVarsMain)
+		g.N = 1 + r.intn(20)
+		g.TAG = hermes.DualType{Offset: 1}
+		g.DZ = hermes.DualType{Index: 10, Num: 10}
+		g.ITAG = 1 + r.intn(366)
+		if c%3 != 2 {
+			phase := boundaryPhases[(c/3*2+c%3)%len(boundaryPhases)]
+			if c >= 3*len(boundaryPhases) {
+				phase = -400 + r.intn(1201)
+			}
+			g.GROUNDWATERFROM = hermes.Polygonfile
+			g.GRLO, g.GRHI = 1+r.intn(25), 1+r.intn(25)
+			g.GW, g.AMPL = float64(g.GRLO+g.GRHI)/2, float64(g.GRLO-g.GRHI)/2 // input.go:73-75
+			g.GWPhase = phase
+			hermes.Init(g)
+			arg := (g.TAG.Num + float64(phase)) * math.Pi / 180
+			sn := math.Sin(arg)
+			emit(jobj{"k": "gwsin", "line": -1, "zeit": 0, "tag": hx(g.TAG.Num), "phase": phase, "gphase": g.GWPhase, "gw": hx(g.GW), "ampl": hx(g.AMPL),
+				"arg": hx(arg), "s": hx(sn), "grw": hx(g.GRW), "itag": g.ITAG})
+			if g.TAG.Index != g.ITAG-2 {
+				oracleFail("gw-sinus:init:day-of-year ITAG=%d TAG.Index=%d", g.ITAG, g.TAG.Index)
+			}
+			if expect := g.GW - (g.AMPL * sn); !(math.Abs(g.GRW-expect) <= 1e-9*(1+math.Abs(g.GW)+math.Abs(g.AMPL))) {
+				c20Fail("gw-sinus:init:not-the-configured-phase", "ITAG=%d tag=%v configured-phase=%d gw=%v ampl=%v grw=%v expected=%v", g.ITAG, g.TAG.Num, phase, g.GW, g.AMPL, g.GRW, expect)
+			}
+		} else {
+			n := r.intn(8)
+			var dates []int
+			var vals []float64
+			d := 20000 + r.intn(15000)
+			for i := 0; i < n; i++ {
+				dates, vals = append(dates, d), append(vals, math.Round(r.between(1, 25)*10)/10)
+				d += 1 + r.intn(200)
+			}
+			g.GROUNDWATERFROM = hermes.GWTimeSeries
+			g.GWTimeSeriesValues = make(map[int]float64)
+			g.GWTimestamps = make([]int, 0)
+			for i, dt := range dates {
+				g.GWTimeSeriesValues[dt] = vals[i]
+				g.GWTimestamps = append(g.GWTimestamps, dt)
+			}
+			g.BEGINN = 20000 - 100 + r.intn(d-20000+200)
+			if n > 0 && r.chance(0.3) {
+				g.BEGINN = dates[r.intn(n)] + 2
+			}
+			hermes.Init(g)
+			// an empty series: init.go:14 ignores the error and the level is 0
+			emit(jobj{"k": "gwseries", "tag": "init", "dates": dates, "vals": hxs(vals), "q": []int{g.BEGINN - 2}, "level": []string{hx(g.GRW)}, "err": []bool{n == 0}})
+			if n > 0 {
+				gwOracle("init", dates, vals, g.BEGINN-2, g.GRW, nil)
+			}
+		}
+	}
+
 	if *linesFile != "" {
 		f, err := os.Open(*linesFile)
 		if err != nil {
@@ -215,6 +276,9 @@ func c20(args []string) {
 // (config.yml or command line), against which the sinusoid is evaluated
 func c20Meta(line string) (args []string, confPhase int, havePhase bool) {
 	for _, t := range splitArgs(line) {
+		if strings.HasPrefix(t, "@config-phase=") {
+			continue // handled by c20SetConfigPhase
+		}
 		if strings.HasPrefix(t, "@phase=") {
 			confPhase, _ = strconv.Atoi(t[len("@phase="):])
 			havePhase = true
@@ -225,8 +289,90 @@ func c20Meta(line string) (args []string, confPhase int, havePhase bool) {
 	return
 }
 
+// "@config-phase=<n>": write GroundWaterPhase: <n> into the config.yml of the run's project (scratch copy) before the run
+func c20SetConfigPhase(work, line string) {
+	project, phase, have := "", "", false
+	for _, t := range splitArgs(line) {
+		if strings.HasPrefix(t, "project=") {
+			project = t[len("project="):]
+		} else if strings.HasPrefix(t, "@config-phase=") {
+			phase, have = t[len("@config-phase="):], true
+		}
+	}
+	if !have {
+		return
+	}
+	p := filepath.Join(work, "project", project, "config.yml")
+	raw, err := os.ReadFile(p)
+	if err != nil {
+		panic(err)
+	}
+	lines := strings.Split(string(raw), "\n")
+	done := false
+	for i, l := range lines {
+		if strings.HasPrefix(l, "GroundWaterPhase:") {
+			lines[i], done = "GroundWaterPhase: "+phase, true
+		}
+	}
+	if !done {
+		lines = append(lines, "GroundWaterPhase: "+phase)
+	}
+	if err := os.WriteFile(p, []byte(strings.Join(lines, "\n")), 0o644); err != nil {
+		panic(err)
+	}
+}
+
+// the rows of the groundwater FILE (all ids, file order), read independently of hermes: id, date converted with the
+// run's own date converter (property C12), level
+type gwRow struct {
+	id    string
+	date  int
+	level float64
+}
+
+func readGwFile(work string, args []string, g *hermes.GlobalVarsMain) (rows []gwRow, id string) {
+	project, soil, gwid := "", "", ""
+	for _, a := range args {
+		switch {
+		case strings.HasPrefix(a, "project="):
+			project = a[len("project="):]
+		case strings.HasPrefix(a, "soilId="):
+			soil = a[len("soilId="):]
+		case strings.HasPrefix(a, "gwId="):
+			gwid = a[len("gwId="):]
+		}
+	}
+	id = gwid
+	if id == "" {
+		id = soil
+	}
+	f, err := os.Open(filepath.Join(work, "project", project, "gw_"+project+".csv"))
+	if err != nil {
+		return nil, id
+	}
+	defer f.Close()
+	sc := bufio.NewScanner(f)
+	sc.Scan() // header
+	for sc.Scan() {
+		t := strings.FieldsFunc(sc.Text(), func(r rune) bool { return r == ',' || r == ';' })
+		if len(t) < 3 {
+			continue
+		}
+		lv, err := strconv.ParseFloat(strings.TrimSpace(t[2]), 64)
+		if err != nil {
+			continue
+		}
+		_, d := g.Datum(t[1])
+		rows = append(rows, gwRow{strings.TrimSpace(t[0]), d, lv})
+	}
+	return rows, id
+}
+
 func c20TraceLine(work, line string, lineNo int) {
+	c20SetConfigPhase(work, line)
 	runArgs, confPhase, havePhase := c20Meta(line)
+	var fileRows []gwRow
+	fileID := ""
 	days := 0
 	first := true
 	var dates []int
@@ -235,6 +381,8 @@ func c20TraceLine(work, line string, lineNo int) {
 	var minL, maxL = math.Inf(1), math.Inf(-1)
 	var zeits []int
 	var grws []string
+	var stamps []int
+	var svals []float64
 	hermes.VerifProbe = func(stage string, zeit, subd int, wdt float64, g *hermes.GlobalVarsMain, w *hermes.WaterSharedVars, n *hermes.NitroSharedVars) {
 		if stage != "evatra-pre" {
 			return
@@ -245,9 +393,16 @@ func c20TraceLine(work, line string, lineNo int) {
 		case hermes.GWTimeSeries:
 			if first {
 				from = "gwTimeSeries"
-				dates = append([]int{}, g.GWTimestamps...)
-				for _, d := range dates {
-					vals = append(vals, g.GWTimeSeriesValues[d])
+				// the series of the FILE: the rows of the id in file order, nothing dropped
+				fileRows, fileID = readGwFile(work, runArgs, g)
+				for _, rw := range fileRows {
+					if rw.id == fileID {
+						dates, vals = append(dates, rw.date), append(vals, rw.level)
+					}
+				}
+				stamps = append([]int{}, g.GWTimestamps...)
+				for _, d := range stamps {
+					svals = append(svals, g.GWTimeSeriesValues[d])
 				}
 			}
 			zeits, grws = append(zeits, zeit), append(grws, hx(g.GRW))
@@ -290,7 +445,12 @@ func c20TraceLine(work, line string, lineNo int) {
 	res := runProject(work, runArgs)
 	hermes.VerifProbe = nil
 	if from == "gwTimeSeries" {
-		emit(jobj{"k": "gwtrace", "line": lineNo, "dates": dates, "vals": hxs(vals), "q": zeits, "level": grws})
+		ids, rd, rl := []string{}, []int{}, []float64{}
+		for _, rw := range fileRows {
+			ids, rd, rl = append(ids, rw.id), append(rd, rw.date), append(rl, rw.level)
+		}
+		emit(jobj{"k": "gwtrace", "line": lineNo, "dates": dates, "vals": hxs(vals), "q": zeits, "level": grws,
+			"id": fileID, "row_ids": ids, "row_dates": rd, "row_levels": hxs(rl), "stamps": stamps, "stamp_vals": hxs(svals)})
 	}
 	o := jobj{"k": "run", "line": lineNo, "success": res.Success, "err": res.Err, "days": days, "from": from}
 	if days > 0 {
